@@ -159,6 +159,11 @@ func ParsePodNetworkAnnotation(podNetworks string) ([]*NetworkSelectionElement, 
 			return nil, fmt.Errorf("parsePodNetworkAnnotation: failed to parse pod Network Attachment Selection "+
 				"Annotation JSON format: %v", err)
 		}
+		for i := range networks {
+			if networks[i] == nil {
+				return nil, fmt.Errorf("parsePodNetworkAnnotation: null network attachment selection element")
+			}
+		}
 	} else {
 		// Comma-delimited list of network attachment object names
 		for _, item := range strings.Split(podNetworks, ",") {
